@@ -17,6 +17,15 @@
 (*   "write"  new / section / write / failing write / parse / query        *)
 (*   "query"  new / mapper / write / parse / query / signature / typed /   *)
 (*            frame iterators                                              *)
+(*   "torn"   new / write / crashing write / torn copy / damaged copy /    *)
+(*            parse (accepted or rejected) / query                         *)
+(*   "records" new / section / clone / record iterators (begin, next)      *)
+(*            interleaved, metadata                                        *)
+(*                                                                         *)
+(* A file's bytes are a sequence of four abstract pieces (header, two      *)
+(* record pieces, strings) so that prefixes and overwrites are ordinary    *)
+(* sequence operations; a parse is accepted iff all four pieces are there  *)
+(* and the header piece is intact.                                         *)
 (***************************************************************************)
 EXTENDS Integers, Sequences, FiniteSets, TLC, Json
 
@@ -37,17 +46,21 @@ TTypedOf(idx, l) == [idx |-> idx, q |-> l, p |-> TRUE]
 TTextOf(idx, t) == [idx |-> idx, q |-> t, p |-> FALSE]
 TBeginOf(idx, fr, p) == [idx |-> idx, fr |-> fr, p |-> p, n |-> 0]
 TStepOf(it) == [yield |-> it, it |-> [it EXCEPT !.n = @ + 1]]
-TWrittenOk(src, w) == w = src
+FileTok(src) == <<[hdr |-> src], "r1", "r2", "s">>
+BadHdr == [hdr |-> Tok(0, <<>>)]
+TWrittenOk(src, w) == w = FileTok(src)
+TVerdictOk(b, v) == v.ok = (Len(b) = 4 /\ b[1] # BadHdr)
+TRecStepOf(b, p) == [yield |-> [b |-> b, p |-> p], pos |-> p + 1]
 
-VARIABLES objs, handles, files, iters, prog
+VARIABLES objs, handles, files, iters, riters, prog
 
 S == INSTANCE System WITH
        SectionOf <- TSectionOf, RangeOk <- TRangeOk, IndexOf <- TIndexOf, InDomainOf <- TInDomainOf,
        MetaOf <- TMetaOf, UuidOf <- TUuidOf, AnswerOf <- TAnswerOf, SigOf <- TSigOf,
        SigConstrained <- TSigConstrained, TypedOf <- TTypedOf, TextOf <- TTextOf, BeginOf <- TBeginOf, StepOf <- TStepOf,
-       WrittenOk <- TWrittenOk
+       WrittenOk <- TWrittenOk, VerdictOk <- TVerdictOk, RecStepOf <- TRecStepOf
 
-vars == <<objs, handles, files, iters, prog>>
+vars == <<objs, handles, files, iters, riters, prog>>
 
 Step(t, x, y, z) == [t |-> t, x |-> x, y |-> y, z |-> z]
 Log(t, x, y, z) == prog' = Append(prog, Step(t, x, y, z))
@@ -63,26 +76,44 @@ Init == S!SInit /\ prog = <<>>
 Next ==
   /\ Len(prog) < Depth
   /\ \/ \E o \in IdsOf, m \in 1..NBase :
-          Fresh(objs, o) /\ S!NewMapping(o, Tok(m, <<>>)) /\ Log("new", o, m, 0)
+          Fresh(objs, o) /\ (Focus = "torn" => (o = 1 /\ objs[1] = S!NoObj))   \* torn: one mapping value, many files
+          /\ S!NewMapping(o, Tok(m, <<>>)) /\ Log("new", o, m, 0)
      \/ \E o2, o \in IdsOf, c \in 1..NCut :
-          Has({"meta", "write"}) /\ Fresh(objs, o2) /\ S!Section(o2, o, c, 0) /\ Log("section", o2, o, c)
+          Has({"meta", "write", "records"}) /\ Fresh(objs, o2) /\ S!Section(o2, o, c, 0) /\ Log("section", o2, o, c)
      \/ \E o2, o \in IdsOf :
-          Has({"meta"}) /\ o2 # o /\ Fresh(objs, o2) /\ S!CloneMapping(o2, o) /\ Log("clone", o2, o, 0)
+          Has({"meta", "records"}) /\ o2 # o /\ Fresh(objs, o2) /\ S!CloneMapping(o2, o) /\ Log("clone", o2, o, 0)
      \/ \E o \in IdsOf :
-          Has({"meta"}) /\ objs[o] # S!NoObj /\ S!Meta(o, TMetaOf(objs[o].bytes)) /\ Log("meta", o, 0, 0)
+          Has({"meta", "records"}) /\ objs[o] # S!NoObj /\ S!Meta(o, TMetaOf(objs[o].bytes)) /\ Log("meta", o, 0, 0)
      \/ \E o \in IdsOf :
           Has({"meta"}) /\ objs[o] # S!NoObj /\ S!Uuid(o, TUuidOf(objs[o].bytes)) /\ Log("uuid", o, 0, 0)
      \/ \E h, o \in IdsOf, p \in {0, 1} :
           Has({"query"}) /\ Fresh(handles, h) /\ S!NewMapper(h, o, p = 1) /\ Log("mapper", h, o, p)
      \/ \E f, o \in IdsOf :
-          Has({"write", "query"}) /\ Fresh(files, f) /\ objs[o] # S!NoObj
-          /\ S!WriteCache(f, o, objs[o].bytes) /\ Log("write", f, o, 0)
+          Has({"write", "query", "torn"}) /\ Fresh(files, f) /\ objs[o] # S!NoObj
+          /\ S!WriteCache(f, o, FileTok(objs[o].bytes)) /\ Log("write", f, o, 0)
      \/ \E o \in IdsOf, k \in {1, 3} :
           Has({"write"}) /\ S!WriteFail(o, FALSE) /\ Log("writefail", o, k, 0)
      \/ \E h, f \in IdsOf :
-          Has({"write", "query"}) /\ Fresh(handles, h) /\ S!ParseCache(h, f) /\ Log("parse", h, f, 0)
+          Has({"write", "query", "torn"}) /\ Fresh(handles, h) /\ files[f] # S!NoObj
+          /\ S!ParseCache(h, f, [ok |-> Len(files[f].bytes) = 4 /\ files[f].bytes[1] # BadHdr, err |-> "any"])
+          /\ Log("parse", h, f, 0)
+     \* the sink fails at its k-th call: the pieces delivered before stay behind
+     \/ \E f, o \in IdsOf, k \in {1, 3} :
+          Has({"torn"}) /\ Fresh(files, f) /\ objs[o] # S!NoObj
+          /\ S!WriteCrash(f, o, SubSeq(FileTok(objs[o].bytes), 1, k - 1), FALSE) /\ Log("crash", f, o, k)
+     \/ \E f2, f \in IdsOf, c \in 1..3 :
+          Has({"torn"}) /\ Fresh(files, f2) /\ S!Truncate(f2, f, c) /\ Log("truncate", f2, f, c)
+     \* e = 1, 2: the header piece replaced (foreign magic, other version); e = 3: a record piece damaged
+     \/ \E f2, f \in IdsOf, e \in 1..3 :
+          Has({"torn"}) /\ Fresh(files, f2) /\ files[f] # S!NoObj /\ Len(files[f].bytes) = 4
+          /\ S!Overwrite(f2, f, IF e = 3 THEN 1 ELSE 0, IF e = 3 THEN <<"dmg">> ELSE <<BadHdr>>) /\ Log("overwrite", f2, f, e)
+     \/ \E r, o \in IdsOf :
+          Has({"records"}) /\ Fresh(riters, r) /\ S!RecBegin(r, o) /\ Log("recbegin", r, o, 0)
+     \/ \E r \in IdsOf :
+          Has({"records"}) /\ riters[r] # S!NoObj
+          /\ S!RecNext(r, TRecStepOf(riters[r].bytes, riters[r].pos).yield) /\ Log("recnext", r, 0, 0)
      \/ \E h \in IdsOf, q \in 1..NQuery :
-          Has({"write", "query"}) /\ handles[h] # S!NoObj
+          Has({"write", "query", "torn"}) /\ handles[h] # S!NoObj
           /\ S!Query(h, q, TAnswerOf(handles[h].index, q, handles[h].params)) /\ Log("q", h, q, 0)
      \/ \E h \in IdsOf :
           Has({"query"}) /\ handles[h] # S!NoObj /\ S!Sig(h, 1, TSigOf(handles[h].index, 1)) /\ Log("sig", h, 1, 0)
@@ -98,13 +129,20 @@ Next ==
 Spec == Init /\ [][Next]_vars
 
 \* design-level invariants of the object machine (checked on every program)
-FilesAgree == \A f, g \in IdsOf : (files[f] # S!NoObj /\ files[g] # S!NoObj /\ files[f].src = files[g].src)
+FilesAgree == \A f, g \in IdsOf : (files[f] # S!NoObj /\ files[g] # S!NoObj /\ files[f].src = files[g].src
+                                      /\ files[f].kind = "whole" /\ files[g].kind = "whole")
                                      => files[f].bytes = files[g].bytes
+\* what a crash leaves behind is a prefix of the whole file, and is never accepted as a handle with other content
+CrashedArePrefixes == \A f, g \in IdsOf : (files[f] # S!NoObj /\ files[g] # S!NoObj /\ files[f].src = files[g].src
+                                             /\ files[f].kind = "crashed" /\ files[g].kind = "whole")
+                                            => S!IsPrefixOf(files[f].bytes, files[g].bytes)
 HandlesFromObjects == \A h \in IdsOf : handles[h] # S!NoObj => handles[h].kind \in {"mapper", "cache"}
 \* a program that ends with the creation of an object observes nothing its prefixes do not: only programs
 \* ending in a call with an answer are printed
-Observations == {"meta", "uuid", "write", "writefail", "parse", "q", "sig", "typed", "text", "next"}
-Emit == (Len(prog) = Depth /\ prog[Depth].t \in Observations) => PrintT("CASE " \o ToJson([prog |-> prog]))
+Observations == {"meta", "uuid", "write", "writefail", "parse", "q", "sig", "typed", "text", "next", "crash", "recnext"}
+\* (torn: every write / crashing write is checked where it occurs inside a program; the programs worth running
+\* to the end are those that end by parsing or asking)
+Emit == (Len(prog) = Depth /\ prog[Depth].t \in (IF Focus = "torn" THEN {"parse", "q"} ELSE Observations)) => PrintT("CASE " \o ToJson([prog |-> prog]))
 
-Inv == FilesAgree /\ HandlesFromObjects /\ Emit
+Inv == FilesAgree /\ CrashedArePrefixes /\ HandlesFromObjects /\ Emit
 =============================================================================
